@@ -301,6 +301,51 @@ pub fn run(o: &Opts) {
         json!({"stream": "c13-unused-suppressions"}));
     }
   }
+  // F: the project's own maps: `languageGlobs` entries of several languages claiming the same files (any key order in
+  //    the file, any launch): which language a file gets, hence which rules run on it, must be the same every time
+  {
+    let langs = ["tsx", "javascript", "python", "typescript"];
+    let mut per_order: Vec<Vec<String>> = vec![];
+    let launches = if o.thorough { 12 } else { 6 };
+    for order in 0..3 {
+      let p = fresh_dir(&o.out, &format!("lang_globs_{order}"));
+      std::fs::create_dir_all(p.join("rules")).unwrap();
+      let mut keys: Vec<&str> = langs.to_vec();
+      keys.rotate_left(order);
+      if order == 2 {
+        keys.reverse();
+      }
+      let mut cfg = String::from("ruleDirs: [rules]\nlanguageGlobs:\n");
+      for k in &keys {
+        cfg.push_str(&format!("  {k}: ['*.ts', '*.foo']\n"));
+      }
+      std::fs::write(p.join("sgconfig.yml"), cfg).unwrap();
+      let y: Vec<String> = langs.iter().map(|l| format!("id: r-{l}\nlanguage: {l}\nseverity: warning\nmessage: m\nrule:\n  pattern: foo($A)\n")).collect();
+      std::fs::write(p.join("rules/r.yml"), y.join("---\n")).unwrap();
+      std::fs::write(p.join("a.ts"), "foo(1)\n").unwrap();
+      std::fs::write(p.join("b.foo"), "foo(2)\n").unwrap();
+      let mut seen: Vec<String> = vec![];
+      for _ in 0..launches {
+        let r = sg(&p, &["scan", "--json=stream"], None, 60);
+        out.checked();
+        out.count("launch:overlapping-language-globs");
+        let mut ids: Vec<String> = json_lines(&r.stdout).unwrap_or_default().iter().map(|v| format!("{}:{}", v["file"].as_str().unwrap_or("").trim_start_matches("./"), v["ruleId"].as_str().unwrap_or(""))).collect();
+        ids.sort();
+        seen.push(ids.join(","));
+      }
+      if !seen[0].is_empty() {
+        out.nontrivial(&("lang-globs", order, seen[0].clone()));
+      } else {
+        out.count("launch:overlapping-language-globs(no finding at all)");
+      }
+      per_order.push(seen);
+    }
+    let all: Vec<&String> = per_order.iter().flatten().collect();
+    if let Some(bad) = all.iter().find(|s| **s != all[0]) {
+      out.oracle_fail("", &format!("`sg scan` on a project whose languageGlobs give the same files (*.ts, *.foo) to four languages, in {launches} launches x 3 key orders of the same map: the rules applied differ between launches: {:?} vs {:?}", all[0], bad),
+        json!({"stream": "c13-language-globs", "results": per_order}));
+    }
+  }
   // D: sg test --update-all, then sg test passes and a second update leaves the snapshots byte-identical
   {
     let p = proj.join("v0");
@@ -335,5 +380,5 @@ pub fn run(o: &Opts) {
   out.finish("rule documents with inter-dependent utilities (chains through all/any/not/matches), transformation chains (substring -> replace -> convert -> substring), constraints that bind a shared new variable, \
               rewriters with joinBy: each loaded and run 16 (64) times in one process with the textual key order of utils / constraints / transform permuted (every load gives every HashMap a new seed) and 8 (32) times in fresh processes; \
               four fixable rules competing for the same node (two with files globs, one with ignores) in 4 document orders x one-file/many-files: `sg scan -U` must write the same bytes; accept/reject, findings, messages, meta-variable ranges, transformed values and fixes must be identical; the same rules in rule files named/ordered differently or collected in one file; \
-              `sg test -U` then `sg test` then `sg test -U` with byte-identical snapshot files. non-trivial = the rule has findings");
+              a project whose languageGlobs give the same files to four languages (3 key orders x repeated launches: the same rules must run every time); `sg test -U` then `sg test` then `sg test -U` with byte-identical snapshot files. non-trivial = the rule has findings");
 }
